@@ -81,6 +81,19 @@ CHECKS['C13'] = dict(
          'dataset names without "-" for the look-up theorem.',
     ref='§5 C13')
 
+CHECKS['C16'] = dict(
+    technique='Lean 4 theorems over an exact-rational model of check_for_matching_attrs + differential correspondence',
+    text=('Theorems (Usid/Properties/C16.lean): for every dictionary over the supported types with distinct keys, comparing '
+          'the stored attributes with the written dictionary is a match (reflexive); None entries are ignored wherever '
+          'they sit; one failing entry fails the whole comparison whether or not the loop breaks there; an absent key, a '
+          'changed scalar, a changed length are mismatches; a changed list element is a mismatch for strings and whole '
+          'numbers always and for floats beyond np.allclose\'s tolerance (modelled exactly over Q); the full float '
+          'statement is refuted by a kernel-checked counterexample (known finding KF-D10-float). Correspondence: random '
+          'dictionaries written with write_simple_attrs to groups/datasets, all single-entry perturbations.'),
+    note=COMMON_NOTE + 'sidpy attribute round trip is outside /repo and only observed; generated float perturbations '
+         'stay a factor 10 away from the tolerance boundary; bool lists and mixed-type lists are outside the domain.',
+    ref='§5 C16')
+
 REASON_PENDING = 'check not built yet in this round (planned: Lean model + theorems + correspondence, see DESIGN.md §5)'
 
 
